@@ -14,6 +14,7 @@ CONSTANTS
     SemCap = 1
     Mode = "local"
     UpgradeSend = "drop"
+    UpgraderSem = "drop"
     UpgradeRecheck = TRUE
     MaxCalls = 2
     Kinds = {"auth", "update", "remove", "add", "setadmin", "list"}
